@@ -119,6 +119,12 @@ package updown
 //@     invariant forall(t, 0, len(LudL), LudL[t].idx == t)
 //@   loop 2:
 //@     invariant len(snpPos) == len(snps) && disjoint(snpPos, LudL) && forall(t, 0, len(LudL), LudL[t].idx == t)
+//@     invariant [c09.positions] freshslice(snpPos) && len(record[1]) > 0 && len(snps) == splitn(record[1], "|") && forall(j, 0, len(snps), snps[j] == splitat(record[1], "|", j)) && forall(j, 0, range_i, snpPos[j] == atoi(snps[j][1:len(snps[j])-1]))
+//@   # C09: what a CSV row becomes: id, index, counts, and the SNP list = the '|'-separated tokens of the SNPs field (none for an
+//@   # empty field) with positions parsed out of the tokens
+//@   before append#1: assert [c09.row.fields] udL.id == record[0] && udL.idx == counter && udL.ambCount == amb_count && sameslice(udL.ambs, a)
+//@   before append#1: assert [c09.row.nosnps] implies(len(record[1]) == 0, len(udL.snps) == 0 && len(udL.snpsPos) == 0 && len(udL.snpsSorted) == 0)
+//@   before append#1: assert [c09.row.snps] implies(len(record[1]) > 0, len(udL.snps) == splitn(record[1], "|") && len(udL.snpsPos) == len(udL.snps) && len(udL.snpsSorted) == len(udL.snps) && forall(j, 0, len(udL.snps), udL.snps[j] == splitat(record[1], "|", j) && udL.snpsPos[j] == atoi(udL.snps[j][1:len(udL.snps[j])-1])))
 //@   ensures [idx] implies(result2 == nil, forall(t, 0, len(result1), result1[t].idx == t))
 //@   ensures [local.rows] implies(result2 == nil, len(result1) == len(lines(r)) - 1)
 //@   ensures [local.c18.empty] implies(len(lines(r)) == 0, result2 != nil)
@@ -131,6 +137,10 @@ package updown
 //@     invariant len(sent(cErr)) == 0 && len(sent(cReadDone)) == 0
 //@   loop 2:
 //@     invariant len(sent(cErr)) == 0 && len(sent(cReadDone)) == 0 && len(snpPos) == len(snps)
+//@     invariant [c09.positions] freshslice(snpPos) && len(record[1]) > 0 && len(snps) == splitn(record[1], "|") && forall(j, 0, len(snps), snps[j] == splitat(record[1], "|", j)) && forall(j, 0, range_i, snpPos[j] == atoi(snps[j][1:len(snps[j])-1]))
+//@   before send#7: assert [c09.row.fields] udL.id == record[0] && udL.ambCount == amb_count && sameslice(udL.ambs, a)
+//@   before send#7: assert [c09.row.nosnps] implies(len(record[1]) == 0, len(udL.snps) == 0 && len(udL.snpsPos) == 0 && len(udL.snpsSorted) == 0)
+//@   before send#7: assert [c09.row.snps] implies(len(record[1]) > 0, len(udL.snps) == splitn(record[1], "|") && len(udL.snpsPos) == len(udL.snps) && len(udL.snpsSorted) == len(udL.snps) && forall(j, 0, len(udL.snps), udL.snps[j] == splitat(record[1], "|", j) && udL.snpsPos[j] == atoi(udL.snps[j][1:len(udL.snps[j])-1])))
 //@   ensures [c18.exclusive] len(sent(cErr)) + len(sent(cReadDone)) == 1
 //@   ensures [c18.empty] implies(len(lines(r)) == 0, len(sent(cErr)) == 1)
 
